@@ -358,6 +358,7 @@ func genC12Reqs(r *rng, n int) []c12Req {
 		{Kind: "Create", Tag: "zero-replicas", Dim: 2, Parts: 1, Repl: 0},
 		{Kind: "Create", Tag: "zero-dimension", Dim: 0, Parts: 1, Repl: 1},
 		{Kind: "Create", Tag: "unknown-space", Dim: 2, Space: 7, Parts: 1, Repl: 1},
+		{Kind: "Create", Tag: "negative-space", Dim: 2, Space: 4294967295, Parts: 1, Repl: 1}, // proto3 enums are open int32s: -1 on the wire
 		{Kind: "Create", Tag: "huge-partition-count", Dim: 2, Parts: 1 << 31, Repl: 1},
 		{Kind: "Create", Tag: "huge-replication", Dim: 2, Parts: 1, Repl: 1 << 31},
 		{Kind: "Insert", Tag: "malformed-id", Ds: "d0", Id: []byte{1, 2}, Value: vec(3)},
@@ -482,6 +483,7 @@ func genC12Reqs(r *rng, n int) []c12Req {
 			d := int(m.Dim)
 			reqs = append(reqs,
 				c12Req{Kind: "Insert", Tag: "into:" + m.Tag, Ds: ds, Id: id(), Value: vec(d)},
+				c12Req{Kind: "Insert", Tag: "into:" + m.Tag, Ds: ds, Id: id(), Value: vec(d)}, // the second item is the first to compute a distance
 				c12Req{Kind: "Search", Tag: "in:" + m.Tag, Ds: ds, Value: vec(d), K: 2},
 				c12Req{Kind: "GetDatasetSize", Tag: "of:" + m.Tag, Ds: ds})
 		}
